@@ -213,3 +213,32 @@ pub fn mat_from_view<T: HS, I: Iterator<Item = T>>(r: usize, c: usize, it: I) ->
 pub fn vec_to_mat<T: HS>(v: &DVector<T>) -> DMatrix<T> {
     DMatrix::from_iterator(v.nrows(), 1, v.iter().cloned())
 }
+
+impl HS for f32 {
+    const SYM: bool = false;
+    fn var(name: &str, dn: i64, dd: i64) -> f32 {
+        <f64 as HS>::var(name, dn, dd) as f32
+    }
+    fn ratio(n: i64, d: i64) -> f32 {
+        n as f32 / d as f32
+    }
+    fn ufun(name: &str, args: &[f32]) -> f32 {
+        let a: Vec<f64> = args.iter().map(|x| *x as f64).collect();
+        <f64 as HS>::ufun(name, &a) as f32
+    }
+    fn repr(self) -> String {
+        <f64 as HS>::repr(self as f64)
+    }
+    fn peek(self) -> f64 {
+        self as f64
+    }
+    fn garbage(self) -> bool {
+        false
+    }
+    fn s_abs(self) -> f32 {
+        self.abs()
+    }
+    fn as_sym(self) -> Option<Sym> {
+        None
+    }
+}
